@@ -119,8 +119,22 @@ class C13(DevProp):
         if cases is not None:
             self.twins = []
         DevProp.run(self, run_, cases=cases, replaying=replaying)
-        if run_.violations or cases is not None or not self.twins:
+        if cases is not None or not self.twins:
             return
+        # a mere view difference (broken correspondence, no failing input) must not pre-empt the twin comparison, which may exhibit the
+        # failing history; it is reported only if the twins find nothing either
+        parked = []
+        if run_.violations:
+            if any(not v["no_input"] for v in run_.violations):
+                return
+            parked, run_.violations = run_.violations, []
+        try:
+            self.twin_stage(run_)
+        finally:
+            if not run_.violations:
+                run_.violations = parked
+
+    def twin_stage(self, run_):
         # twin comparison on the implementation's observations
         cases, results = self._cases, self._results
         items = []
